@@ -14,6 +14,8 @@ import (
 	"sync"
 	"time"
 
+	"github.com/antchfx/xpath/verifrt"
+
 	"verif/mc/explore"
 	"verif/mc/report"
 	"verif/mc/scen"
@@ -149,6 +151,30 @@ func scenarioSpace(prop string, groups map[string]bool, tier string) *explore.Sp
 		Label: func(i int) string { return fmt.Sprintf("%s  slice %d/%d", list[i/nslices].Name, i%nslices, nslices) },
 		Run: func(i int, w *explore.Worker) {
 			sc := list[i/nslices]
+			if i == 0 {
+				// vacuity canary: a deliberately racy read-modify-write across a
+				// scheduling point, in harness code. The explorer must find the lost
+				// update with one preemption; if it does not, nothing it reports
+				// about the real scenarios means anything.
+				counter := 0
+				mk := func() ([]func() string, func() string) {
+					counter = 0
+					body := func() string {
+						v := counter
+						verifrt.Point(-100)
+						counter = v + 1
+						verifrt.Point(-101)
+						return fmt.Sprint(counter)
+					}
+					return []func() string{body, body}, nil
+				}
+				st := sched.Explore(mk, 1, 0, func(*sched.Result) bool { return true })
+				w.Count("canary_joint_outcomes", int64(len(st.Outcomes)))
+				w.Count("canary_schedules", st.Executions)
+				if len(st.Outcomes) < 2 {
+					w.InternalError(fmt.Sprintf("vacuous exploration: the racy canary produced %d joint outcome(s) in %d schedules", len(st.Outcomes), st.Executions))
+				}
+			}
 			if i%nslices == 0 {
 				w.Sample(sc.Name)
 			}
